@@ -1598,6 +1598,10 @@ class Ev:
             tok_ = self.input_of(e, env, gen)
             if tok_ is not None and tok_[0] in ("tok", "v") and not b.is_cur(tok_):
                 # a parser applied, in result position, to something other than the current input
+                if tok_[0] == "v" and not b.drops_remainder:
+                    # `return p(region)`: what is handed back as the remainder is what p left of the region, not the
+                    # input after the region
+                    self.anomalies.append(("REMAINDER", "the result of a parser applied to a region is returned as it is: the remainder is the region's, not the input's", short_loc(e.get("loc"))))
                 return self.apply_result_expr(e, env, gen, b, rem_wild=False)
             return self.apply_call(e, env, gen, b)
         if k == "mcall":
